@@ -100,14 +100,16 @@ func ruleTargetUsesItsPair(c *Ctx) {
 			if pt, ok := t.Underlying().(*types.Pointer); ok {
 				t = pt.Elem() // a captured variable is captured by reference
 			}
-			if isPtrToRestful(t, "Request") || isPtrToRestful(t, "Response") || isPtrToRestful(fv.Type(), "Request") || isPtrToRestful(fv.Type(), "Response") {
+			if isPtrToRestful(t, "Request") || isPtrToRestful(t, "Response") || isPtrToRestful(fv.Type(), "Request") || isPtrToRestful(fv.Type(), "Response") ||
+				isHTTPResponseWriter(t) || isHTTPRequestPtr(t) || isHTTPResponseWriter(fv.Type()) || isHTTPRequestPtr(fv.Type()) {
+				// the server's own writer or request, captured where the chain passes on a (possibly replaced) pair
 				if len(referrers(fv)) > 0 {
 					captured = fv
 				}
 			}
 		}
 		if captured == nil {
-			c.ok(name, "works on the request and response it is called with", p.pos(fn.Pos()), "no *Request / *Response of the enclosing function is used")
+			c.ok(name, "works on the request and response it is called with", p.pos(fn.Pos()), "no *Request / *Response / http.ResponseWriter / *http.Request of the enclosing function is used")
 		} else {
 			c.bad(name, "works on the request and response it is called with", p.pos(fn.Pos()),
 				"the function uses "+captured.Name()+" of the enclosing function instead of (or besides) the pair it is called with: a filter that passed on a replacement request or response is bypassed")
@@ -154,5 +156,366 @@ func ruleRecoverDoesNotPanic(c *Ctx) {
 	}
 	if n == 0 {
 		c.note("-", "no function on the request path calls recover()", "-", "nothing to decide (C10.a decides that the mechanism exists)")
+	}
+}
+
+// C15.f — "the failing call returns that error". In the functions of the Response's writing API (methods of Response
+// and the module functions they reach) a call that hands bytes towards the underlying writer - Write, WriteString,
+// Flush, ReadFrom, WriteTo, Encode, io.Copy, fmt.Fprint* - and returns an error has that error looked at: the result is
+// not discarded. A bufio.Writer put in front of the response whose Flush error is dropped makes WriteAsXml return nil
+// for a writer that failed.
+func ruleWriteErrorsKept(c *Ctx) {
+	p := c.P
+	var roots []*ssa.Function
+	for _, fn := range p.methodsOf("Response") {
+		roots = append(roots, fn)
+	}
+	reach := p.callGraph().reach(roots, func(e Edge) bool { return e.Kind == EdgeEscape })
+	errType := types.Universe.Lookup("error").Type()
+	names := map[string]bool{"Write": true, "WriteString": true, "Flush": true, "ReadFrom": true, "WriteTo": true, "Encode": true, "Copy": true, "CopyN": true,
+		"Fprint": true, "Fprintf": true, "Fprintln": true, "WriteByte": true, "WriteRune": true}
+	n := 0
+	for _, fn := range p.SrcFunc {
+		if !reach[fn] || fn.Blocks == nil || !p.inModule(fn) {
+			continue
+		}
+		name := p.fname(fn)
+		eachInstr(fn, func(i ssa.Instruction) {
+			cc := callCommon(i)
+			if cc == nil {
+				return
+			}
+			if _, isDefer := i.(*ssa.Defer); isDefer {
+				return
+			}
+			var mname string
+			var sig *types.Signature
+			if cc.IsInvoke() {
+				mname, sig = cc.Method.Name(), cc.Method.Type().(*types.Signature)
+			} else if cal := cc.StaticCallee(); cal != nil {
+				mname, sig = cal.Name(), cal.Signature
+				if p.inModule(cal) {
+					return // the module's own functions are looked at themselves
+				}
+			} else {
+				return
+			}
+			if !names[mname] || sig.Results().Len() == 0 {
+				return
+			}
+			last := sig.Results().Len() - 1
+			if !types.Identical(sig.Results().At(last).Type(), errType) {
+				return
+			}
+			// the trace logger and in-memory buffers cannot fail towards the client
+			if cc.IsInvoke() && isLoadOfGlobal(strip(cc.Value), "traceLogger") {
+				return
+			}
+			recv := cc.Value
+			if !cc.IsInvoke() && len(cc.Args) > 0 {
+				recv = cc.Args[0]
+			}
+			if recv != nil {
+				t := recv.Type()
+				if pt, ok := t.Underlying().(*types.Pointer); ok {
+					t = pt.Elem()
+				}
+				if isNamed(t, "bytes", "Buffer") || isNamed(t, "strings", "Builder") {
+					return
+				}
+			}
+			v, isVal := i.(ssa.Value)
+			if !isVal {
+				return
+			}
+			n++
+			used := false
+			if sig.Results().Len() == 1 {
+				used = len(referrers(v)) > 0
+			} else {
+				for _, r := range referrers(v) {
+					if ex, ok := r.(*ssa.Extract); ok && ex.Index == last && len(referrers(ex)) > 0 {
+						used = true
+					}
+				}
+			}
+			c.check(used, name, "the error of "+mname+" towards the writer is looked at", p.ipos(i), "the error result is used",
+				"the error this call returns is discarded: when the underlying writer fails here the writing call of the Response still returns nil")
+		})
+	}
+	if n == 0 {
+		c.note("-", "no fallible write call in the Response's writing functions", "-", "nothing to decide")
+	}
+}
+
+// C05.k — every range of the Accept header takes part in the ranking. In the loop over the pieces of a header value
+// (elements of strings.Split of a request-derived string) no branch is decided by a lookup in a map that the same
+// loop fills: a "seen" set that skips a range listed a second time ignores the occurrence that may carry the higher
+// q-value (`application/xml;q=0.1, application/json;q=0.5, application/xml`).
+func ruleHeaderElementsIndependent(c *Ctx) {
+	p := c.P
+	n := 0
+	for _, fn := range p.requestPathFuncs() {
+		if fn.Blocks == nil || !p.inModule(fn) {
+			continue
+		}
+		name := p.fname(fn)
+		for _, h := range fn.Blocks {
+			if !isLoopHeader(h) {
+				continue
+			}
+			loop := naturalLoop(h)
+			// a loop over the elements of strings.Split(x, ",")
+			overSplit := false
+			for b := range loop {
+				for _, ins := range b.Instrs {
+					ia, ok := ins.(*ssa.IndexAddr)
+					if !ok {
+						continue
+					}
+					for _, src := range p.sources(ia.X, provDefault) {
+						if call, ok := src.(*ssa.Call); ok && calleeName(&call.Call) == "strings.Split" {
+							if sep, isC := constStr(call.Call.Args[1]); isC && sep == "," {
+								overSplit = true
+							}
+						}
+					}
+				}
+			}
+			if !overSplit {
+				continue
+			}
+			n++
+			// maps updated inside the loop
+			updated := map[ssa.Value]bool{}
+			for b := range loop {
+				for _, ins := range b.Instrs {
+					if mu, ok := ins.(*ssa.MapUpdate); ok {
+						updated[strip(mu.Map)] = true
+					}
+				}
+			}
+			why := ""
+			var dep func(v ssa.Value, d int) bool
+			dep = func(v ssa.Value, d int) bool {
+				if d > 5 || v == nil {
+					return false
+				}
+				switch x := v.(type) {
+				case *ssa.Lookup:
+					return updated[strip(x.X)]
+				case *ssa.Extract:
+					return dep(x.Tuple, d+1)
+				case *ssa.UnOp:
+					return dep(x.X, d+1)
+				case *ssa.BinOp:
+					return dep(x.X, d+1) || dep(x.Y, d+1)
+				case *ssa.Phi:
+					for _, e := range x.Edges {
+						if dep(e, d+1) {
+							return true
+						}
+					}
+				}
+				return false
+			}
+			for b := range loop {
+				if iff, ok := b.Instrs[len(b.Instrs)-1].(*ssa.If); ok && dep(iff.Cond, 0) {
+					why = p.ipos(iff)
+				}
+			}
+			pos := p.pos(fn.Pos())
+			if len(h.Instrs) > 0 {
+				pos = p.ipos(h.Instrs[len(h.Instrs)-1])
+			}
+			c.check(why == "", name, "each element of the header list is treated on its own", pos, "no branch of the loop reads a map the loop fills",
+				"the branch at "+why+" looks an element up in a set that earlier iterations filled: an element listed again is skipped although it may carry the higher quality value (or the stricter requirement)")
+		}
+	}
+	if n == 0 {
+		c.note("-", "no loop over the elements of a comma-separated header value", "-", "nothing to decide")
+	}
+}
+
+// C07.j — "through Handle and HandleWithFilter": what the module registers on the ServeMux for a plain handler is,
+// as a whole, the function that installs the compressor - so that the container filters of HandleWithFilter run
+// inside it and everything they write goes through the one compressor. Each handler value registered by a function of
+// the Handle family (not the dispatcher, not a replayed record) resolves - through parameters to the arguments at the
+// call sites, through module functions to what they return - to function literals that install the compressing
+// writer themselves. Wrapping only the innermost handler leaves a filter's own bytes outside the encoded stream.
+func ruleRegisteredHandlerEncodes(c *Ctx) {
+	p := c.P
+	installs := func(fn *ssa.Function) bool {
+		found := false
+		var scan func(f *ssa.Function, d int)
+		scan = func(f *ssa.Function, d int) {
+			if f == nil || f.Blocks == nil || d > 1 {
+				return
+			}
+			eachInstr(f, func(i ssa.Instruction) {
+				if cc := callCommon(i); cc != nil && cc.StaticCallee() != nil {
+					if cc.StaticCallee().Name() == "NewCompressingResponseWriter" {
+						found = true
+					} else if p.inModule(cc.StaticCallee()) && cc.StaticCallee().Parent() == nil {
+						scan(cc.StaticCallee(), d+1)
+					}
+				}
+			})
+		}
+		scan(fn, 0)
+		return found
+	}
+	var resolve func(v ssa.Value, d int, out *[]*ssa.Function, unknown *string)
+	resolve = func(v ssa.Value, d int, out *[]*ssa.Function, unknown *string) {
+		v = strip(v)
+		if d > 6 {
+			*unknown = "resolution too deep"
+			return
+		}
+		switch x := v.(type) {
+		case *ssa.MakeClosure:
+			if f, ok := x.Fn.(*ssa.Function); ok {
+				*out = append(*out, f)
+			}
+		case *ssa.Function:
+			*out = append(*out, x)
+		case *ssa.Phi:
+			for _, e := range x.Edges {
+				resolve(e, d+1, out, unknown)
+			}
+		case *ssa.Parameter:
+			fn := x.Parent()
+			idx := -1
+			for k, prm := range fn.Params {
+				if prm == x {
+					idx = k
+				}
+			}
+			n := 0
+			for _, e := range p.callGraph().In[fn] {
+				if cc := callCommon(e.Site); cc != nil && !cc.IsInvoke() && idx >= 0 && idx < len(cc.Args) {
+					n++
+					resolve(cc.Args[idx], d+1, out, unknown)
+				}
+			}
+			if n == 0 {
+				*unknown = "the caller's handler (exported entry)"
+			}
+		case *ssa.Call:
+			if cal := x.Call.StaticCallee(); cal != nil && p.inModule(cal) && cal.Blocks != nil {
+				for _, r := range returnsOf(cal) {
+					if len(r.Results) > 0 {
+						resolve(r.Results[0], d+1, out, unknown)
+					}
+				}
+				return
+			}
+			*unknown = "result of " + shortCallee(&x.Call)
+		case *ssa.UnOp:
+			for _, a := range p.loadOfCell(x) {
+				for _, st := range p.cellStores(a) {
+					resolve(st.Val, d+1, out, unknown)
+				}
+			}
+		default:
+			*unknown = operandDesc(v)
+		}
+	}
+	n := 0
+	for _, reg := range serviceRegistrations(p) {
+		cc := callCommon(reg.Call)
+		if cc == nil || len(cc.Args) < 3 {
+			continue
+		}
+		h := strip(cc.Args[2])
+		// the dispatcher: a method value of the container
+		if mc, ok := h.(*ssa.MakeClosure); ok {
+			if f, ok := mc.Fn.(*ssa.Function); ok && f.Synthetic != "" {
+				continue
+			}
+		}
+		var fns []*ssa.Function
+		unknown := ""
+		resolve(h, 0, &fns, &unknown)
+		if len(fns) == 0 {
+			continue // a handler of the caller registered as it is: nothing of the module to look at
+		}
+		n++
+		bad := ""
+		for _, f := range fns {
+			if !installs(f) {
+				bad = p.fname(f)
+			}
+		}
+		c.check(bad == "", p.fname(reg.Fn), "what is registered for a plain handler installs the compressor itself", p.ipos(reg.Call),
+			"every function literal that reaches this registration installs the compressing writer",
+			"the function "+bad+" is registered on the mux without being the one that installs the compressor: what it writes itself (the container filters of HandleWithFilter) goes to the client outside the encoded stream, under a Content-Encoding label")
+	}
+	if n == 0 {
+		c.note("-", "no function literal of the module is registered on the mux", "-", "nothing to decide")
+	}
+}
+
+// C13.i — a provider gives a compressor away and is done with it. In the Release* methods of the module's
+// CompressorProviders nothing touches the released object after it was handed over (put into the sync.Pool, sent on
+// the cache channel): from that moment another request may hold it. A `Reset(io.Discard)` "to drop the reference to
+// the response" placed after the Put resets a writer that is already compressing someone else's response.
+func ruleNoUseAfterHandOver(c *Ctx) {
+	p := c.P
+	n := 0
+	for _, fn := range p.SrcFunc {
+		if fn.Blocks == nil || !p.inModule(fn) || fn.Signature.Recv() == nil || fn.Parent() != nil || len(fn.Params) < 2 {
+			continue
+		}
+		if len(fn.Name()) < 8 || fn.Name()[:7] != "Release" {
+			continue
+		}
+		obj := fn.Params[1]
+		var handOvers []ssa.Instruction
+		eachInstr(fn, func(i ssa.Instruction) {
+			if cc := callCommon(i); cc != nil && calleeName(cc) == "(*sync.Pool).Put" && len(cc.Args) > 1 && strip(cc.Args[1]) == ssa.Value(obj) {
+				handOvers = append(handOvers, i)
+			}
+			if snd, ok := i.(*ssa.Send); ok && strip(snd.X) == ssa.Value(obj) {
+				handOvers = append(handOvers, i)
+			}
+			if sel, ok := i.(*ssa.Select); ok {
+				for _, st := range sel.States {
+					if st.Send != nil && strip(st.Send) == ssa.Value(obj) {
+						handOvers = append(handOvers, i)
+					}
+				}
+			}
+		})
+		if len(handOvers) == 0 {
+			continue
+		}
+		n++
+		name := p.fname(fn)
+		var late ssa.Instruction
+		eachInstr(fn, func(i ssa.Instruction) {
+			uses := false
+			for _, op := range i.Operands(nil) {
+				if *op != nil && strip(*op) == ssa.Value(obj) {
+					uses = true
+				}
+			}
+			if !uses {
+				return
+			}
+			for _, h := range handOvers {
+				if i != h && canReach(h, i) && late == nil {
+					late = i
+				}
+			}
+		})
+		if late == nil {
+			c.ok(name, "nothing touches the object after it was handed over", p.pos(fn.Pos()), "no use of the released object is reachable from the Put / send")
+		} else {
+			c.bad(name, "nothing touches the object after it was handed over", p.ipos(late), "the released object is used after it was put into the pool (sent on the channel): another request may already have taken it, and this use disturbs its stream")
+		}
+	}
+	if n == 0 {
+		c.note("-", "no Release* method hands an object over", "-", "nothing to decide")
 	}
 }
